@@ -374,8 +374,14 @@ def judge(c, o, prof):
         bad = [d for d in decoded if d[0] < 0]
         return '%s: the peer codec did not accept the frames (%s, %d of %d frames decoded, %d bytes left)' % (
             prof, 'error %s' % bad[0] if bad else 'no error', len([d for d in decoded if d[0] >= 0]), len(frames), leftover)
-    if 0 in fix:
-        return '%s: decode(encode(y)) differs from y for the value y decoded from frame %d' % (prof, fix.index(0))
+    # a decoded UPDATE carrying attribute errors is rewritten by validate_message on purpose
+    # (treat-as-withdraw / attribute discard, property C05): the fixed-point clause is about
+    # values the decoder accepted as they are
+    for i, f in enumerate(fix):
+        d = decoded[i] if i < len(decoded) else None
+        has_errors = isinstance(d, list) and len(d) >= 7 and d[0] == 2 and len(d[6]) > 0
+        if f == 0 and not has_errors:
+            return '%s: decode(encode(y)) differs from y for the value y decoded from frame %d' % (prof, i)
     if t == 'ka':
         return None if decoded == [[6]] else '%s: KEEPALIVE decoded as %s' % (prof, decoded)
     if t == 'refresh':
